@@ -1163,6 +1163,13 @@ class Evaluator:
             if isinstance(fv, Closure): return s.apply(fv, args, kw, mod, depth, node)
             if attr in recv.f: return s.apply(recv.f[attr], args, kw, mod, depth, node)
         if isinstance(recv, dict):
+            if attr == 'get' and args and 0 < len(recv) <= 4 and not kw and all(isinstance(k_, _HK) and isinstance(k_.v, Poly) and not k_.v.is_const() for k_ in recv) \
+                    and isinstance(args[0], Poly):
+                # a display with symbolic keys looked up with a symbolic key: the LAST entry whose key equals it (later entries replace equal keys)
+                out_ = args[1] if len(args) > 1 else None
+                for k_, v_ in recv.items():
+                    out_ = s.mkcond(s.compare(ast.Eq(), args[0], k_.v), v_, out_)
+                return out_
             if attr == 'get':
                 r = s.getitem(recv, args[0])
                 if isinstance(r, Opq) and r.k[0] == 'KeyError': return args[1] if len(args) > 1 else None
@@ -1310,6 +1317,7 @@ class Evaluator:
 
     def builtin(s, name, args, kw, mod, depth):
         a = args[0] if args else None
+        if name == 'frozenset': name = 'set'          # the same value as far as membership and equality go
         if name == 'str' and len(args) == 1 and (isinstance(a, (Rec, str, Cond)) or (isinstance(a, Opq) and a.k and a.k[0] in ('strcat', 'fmt'))):
             return s.to_str(a, '', -1, mod, depth)
         if name in ('float', 'str', 'int') and len(args) == 1:
